@@ -30,18 +30,30 @@ How the obligations are read off the facts (so that they hold for every spelling
     (C16_helpers.construction_sites); guard values are compared as inline_deep normal forms.
   * "copy_app returns the owning TempDir" is the success payload (mk_unwrap) of copy_app: the tempdir() value sits in a
     field of AppDir that owns a TempDir by value (enum payload / struct field, also as Option / Box of it).
+  * "the removal / pack / run command has this argv" is read off the effects of the `From<X> for Command` conversion with
+    Command::new / arg / args in the vocabulary (C16_helpers.argv_model): one entry per argv word with the conditions on the
+    struct's fields under which it is emitted — a shared private assembler, an extension trait on Command, a delegation to
+    `From<&X>` and an iterator chain handed to `args` (`.chain(force.then_some("--force"))`) give the same model.
+  * "the drop removes the names pack created" compares *terms over the guard* (C16_helpers.guard_term): a name is a field of
+    the guard or a pure string function of its fields (also behind a private accessor, inlined), so a guard that stores only
+    the image name and derives the volume names is the same guard; "names derive from random_docker_identifier" and "the
+    guard holds the name given to docker run" evaluate those terms on the literal that constructs the guard (eval_term).
+  * "the identifier has n random characters" counts draws of `repeat_with(..).take(n)` / a literal range, or of a counted
+    `for` loop over a literal range that pushes one drawn character per iteration (C16_helpers.pushed_draws).
   * "the guard exists before `docker run`" is judged in the frame that issues the command (C16_helpers.guard_frames):
     start_container, or the private function that makes the guard, runs the command and hands the guard back by value;
     the unwind drop is required in every frame that issues a command while owning the guard.
 """
 import os
-from .lib.cmdmodel import command_model, from_command_fns
+from .lib.cmdmodel import from_command_fns
 from .lib.effects import Effects, vocab_lookup
 from .lib.mir import fmt_place
 from .lib.paths import strip
 from .lib.value import vstr, walk, canon
 from .C16_helpers import construction_sites, guard_frames, held, owning_fields, param_fields, top_call
-from .C16_helpers import (ctor_field_params, divergence_points, flag_conditions, guard_mutations, literal_sites, params_in, result_fate_levels, sets_param, tempdir_path)
+from .C16_helpers import GUARD, guard_term, eval_term, term_label
+from .lib import iters
+from .C16_helpers import (argv_model, pushed_draws, ctor_field_params, divergence_points, word_conditions, guard_mutations, literal_sites, params_in, result_fate_levels, sets_param, tempdir_path)
 
 TDR = 'libcnb_test::test_runner::TemporaryDockerResources'
 CC = 'libcnb_test::container_context::ContainerContext'
@@ -54,7 +66,6 @@ RM_IMAGE = 'libcnb_test::docker::DockerRemoveImageCommand'
 RM_VOLUME = 'libcnb_test::docker::DockerRemoveVolumeCommand'
 RM_CONTAINER = 'libcnb_test::docker::DockerRemoveContainerCommand'
 RM_CTORS = {t + '::new': t for t in (RM_IMAGE, RM_VOLUME, RM_CONTAINER)}
-GUARD_NAMES = ['image_name', 'build_cache_volume_name', 'launch_cache_volume_name']
 
 
 def run(ctx, rep):
@@ -65,7 +76,9 @@ def run(ctx, rep):
         rep.rule(r, d)
     rep.not_decided = ['that Docker honours the commands', 'double-fault abort when ContainerContext::drop panics during unwinding (observation)']
     cmds = from_command_fns(prog)
-    models = {ty: command_model(prog, sl, f) for ty, f in cmds.items()}
+    # argv of each conversion as effects of the conversion function (helpers, extension-trait methods, a delegation to
+    # `From<&X>`, iterator chains handed to `args` are transparent): one Item per argv word
+    models = {ty: argv_model(prog, sl, f) for ty, f in cmds.items()}
     w = lambda f: '%s:%d' % (f.file, f.line)
     # call sites of these functions are enumerated context-sensitively, arguments in the entry function's terms
     E = Effects(prog, sl, vocab={RUN: ('RUN', 0), PACK_NEW: ('PACK_NEW', None), DRUN_NEW: ('DRUN_NEW', None), BI: ('BUILD_INTERNAL', None)})
@@ -86,7 +99,7 @@ def run(ctx, rep):
         consts = [e[1] for it in items for e in it.elems if e[0] == 'const']
         fields = [e[1] for it in items for e in it.elems if e[0] == 'field']
         force = [it for it in items if it.elems == [('const', '--force')]]
-        ok = program == 'docker' and consts[:len(sub)] == sub and fields == [field] and len(force) == 1 and force[0].conds == [('force', True)]
+        ok = program == 'docker' and consts[:len(sub)] == sub and fields == [field] and len(force) == 1 and force[0].conds == [('force', True)] and force[0].loop is None
         nf = prog.fns.get(ty + '::new')
         if nf is None:
             return False, 'constructor not found'
@@ -107,51 +120,35 @@ def run(ctx, rep):
         """what a command handed to run_command denotes: (removal command type | None, fields of self it names).
         `X::new(..)` (force default checked with the command shape) and a literal `X { force: true, .. }` are the same
         command; private helpers producing it are inlined"""
+        ty, _, fields = removal_names(e, f)
+        return ty, fields
+
+    def removal_names(e, f):
+        """(removal command type | None, names it removes as terms over f's `self` (None: not a pure function of the guard),
+        fields of self mentioned).  The names are the elements of the constructor argument / the names field of the literal
+        (a volume list decomposed with the iterator algebra), whatever way the guard stores or derives them."""
         v = sl.inline_deep(strip(e.path), keep=tuple(RM_CTORS))
-        if v[0] == 'call' and v[1] in RM_CTORS:
-            return RM_CTORS[v[1]], param_fields(v, f.path, 0)
-        if v[0] == 'agg' and v[1] in RM_CTORS.values() and strip(dict(v[3]).get('force', ('unknown',))) == ('const', True):
-            return v[1], param_fields(v, f.path, 0)
-        return None, []
+        if v[0] == 'call' and v[1] in RM_CTORS and v[2]:
+            ty, arg = RM_CTORS[v[1]], v[2][0]
+        elif v[0] == 'agg' and v[1] in RM_CTORS.values() and strip(dict(v[3]).get('force', ('unknown',))) == ('const', True):
+            rest = [fv for n, fv in v[3] if n != 'force']
+            ty, arg = v[1], (rest[0] if len(rest) == 1 else ('unknown',))
+        else:
+            return None, [], []
+        root = lambda x: x[0] == 'param' and x[1] == f.path and x[2] == 0
+        if ty == RM_VOLUME:
+            al = iters.alts(sl, strip(arg))
+            if al and all(fa is None and not fl for _, fa, fl in al):
+                terms = [guard_term(sl, el, root) for el, _, _ in al]
+            else:       # a list that does not decompose: one name per field of self it mentions
+                terms = [('field', GUARD, n) for n in param_fields(v, f.path, 0)]
+        else:
+            terms = [guard_term(sl, arg, root)]
+        return ty, terms, param_fields(v, f.path, 0)
 
     ekey = lambda e: (id(e.call), canon(e.path) if e.path is not None else None)
 
-    # ---- R1 --------------------------------------------------------------------------------------------
-    f, may, must = drop_runs(TDR)
-    if f is None:
-        rep.violated('R1', 'resources/drop-impl', '-', 'TemporaryDockerResources has no Drop impl: image and volumes are never removed')
-    else:
-        rep.analysed(f)
-        got = {}
-        for e in may:
-            ty, fields = removal(e, f)
-            if ty is not None:
-                got[ty] = sorted(fields)
-        img = got.get(RM_IMAGE)
-        vol = got.get(RM_VOLUME)
-        rep.check(img == ['image_name'], 'R1', 'resources/image', w(f), 'drop removes self.image_name', 'drop does not remove the image by its own name: %s' % img)
-        rep.check(vol == ['build_cache_volume_name', 'launch_cache_volume_name'], 'R1', 'resources/volumes', w(f),
-                  'drop removes both cache volumes', 'drop removes volumes %s (expected both cache volumes)' % vol)
-        for ty, sub, field in ((RM_IMAGE, ['rmi'], 'image_name'), (RM_VOLUME, ['volume', 'remove'], 'volume_names')):
-            ok, why = removal_shape(ty, sub, field)
-            rep.check(ok, 'R1', 'command/' + ty.split('::')[-1], w(cmds[ty]) if ty in cmds else '-', 'docker %s --force <names>' % ' '.join(sub), 'removal command shape: ' + why)
-        # the drop must not diverge before both commands ran: exactly the two removals, each on every path through drop
-        mk = {ekey(e) for e in must}
-        rep.check(len(may) == 2 and all(ekey(e) in mk for e in may), 'R1', 'resources/unconditional', w(f), 'both removals run on every drop', 'a removal is conditional')
-    g, may, must = drop_runs(CC)
-    if g is None:
-        rep.violated('R1', 'container/drop-impl', '-', 'ContainerContext has no Drop impl: detached containers are never removed')
-    else:
-        rep.analysed(g)
-        ok = len(may) == 1 and removal(may[0], g) == (RM_CONTAINER, ['container_name'])
-        rep.check(ok, 'R1', 'container/remove', w(g), 'drop removes self.container_name', 'container drop does not remove its own container')
-        mkc = {ekey(e) for e in must}
-        rep.check(len(may) == 1 and all(ekey(e) in mkc for e in may), 'R1', 'container/unconditional', w(g),
-                  'the container is removed on every drop (also while the thread is unwinding)',
-                  'the container removal is conditional (e.g. skipped while panicking): a detached container can be left behind')
-        ok, why = removal_shape(RM_CONTAINER, ['rm'], 'container_name')
-        rep.check(ok, 'R1', 'command/DockerRemoveContainerCommand', w(g), 'docker rm --force <name>', 'removal command shape: ' + why)
-    # ---- R2 --------------------------------------------------------------------------------------------
+    # the names `pack build` is given, as terms over the guard owned by build_internal (needed by R1 and R2)
     bi = prog.find_one(r'^libcnb_test::test_runner::TestRunner::build_internal$')
     rep.analysed(bi)
     gi = bi.args.index(TDR) if TDR in bi.args else None        # which parameter owns the guard
@@ -160,10 +157,64 @@ def run(ctx, rep):
         v = strip(v)
         return gi is not None and v[0] == 'param' and v[1] == fn.path and v[2] == (gi if idx is None else idx)
 
+    def pack_term(v):
+        """a value handed to PackBuildCommand::new as a term over build_internal's guard (None: not one of its names)"""
+        return guard_term(sl, v, lambda x: is_guard(x)) if gi is not None else None
+
+    bi_may = effects(bi, 'may')
+    packs = [e for e in bi_may if e.kind == 'PACK_NEW']
+    pack_names = [[pack_term(x) for x in e.args[2:5]] for e in packs]       # [image, build cache, launch cache] per call
+    created = pack_names[0] if pack_names and all(p == pack_names[0] for p in pack_names) and len(pack_names[0]) == 3 and None not in pack_names[0] else None
+    tkey = lambda t: repr(t)
+    # ---- R1 --------------------------------------------------------------------------------------------
+    f, may, must = drop_runs(TDR)
+    drop_names = {}
+    if f is None:
+        rep.violated('R1', 'resources/drop-impl', '-', 'TemporaryDockerResources has no Drop impl: image and volumes are never removed')
+    else:
+        rep.analysed(f)
+        for e in may:
+            ty, terms, _ = removal_names(e, f)
+            if ty is not None:
+                drop_names[ty] = terms
+        img = drop_names.get(RM_IMAGE)
+        vol = drop_names.get(RM_VOLUME)
+        # one image name, two different volume names, each a name of the guard itself (a field, or derived from its fields
+        # only) — and, when pack's names are known, exactly the ones `pack build` creates
+        ok_img = img is not None and len(img) == 1 and img[0] is not None and (created is None or img[0] == created[0])
+        ok_vol = vol is not None and len(vol) == 2 and None not in vol and vol[0] != vol[1] and (not ok_img or img[0] not in vol) and \
+            (created is None or sorted(vol, key=tkey) == sorted(created[1:], key=tkey))
+        rep.check(ok_img, 'R1', 'resources/image', w(f), 'drop removes the guard\'s image name (%s)' % term_label(img[0] if img else None),
+                  'drop does not remove the image by its own name: %s' % ([term_label(t) for t in img] if img is not None else None))
+        rep.check(ok_vol, 'R1', 'resources/volumes', w(f),
+                  'drop removes both cache volumes', 'drop removes volumes %s (expected both cache volumes%s)' %
+                  ([term_label(t) for t in vol] if vol is not None else None, ': %s' % [term_label(t) for t in created[1:]] if created else ''))
+        for ty, sub, field in ((RM_IMAGE, ['rmi'], 'image_name'), (RM_VOLUME, ['volume', 'remove'], 'volume_names')):
+            ok, why = removal_shape(ty, sub, field)
+            rep.check(ok, 'R1', 'command/' + ty.split('::')[-1], w(cmds[ty]) if ty in cmds else '-', 'docker %s --force <names>' % ' '.join(sub), 'removal command shape: ' + why)
+        # the drop must not diverge before both commands ran: exactly the two removals, each on every path through drop
+        mk = {ekey(e) for e in must}
+        rep.check(len(may) == 2 and all(ekey(e) in mk for e in may), 'R1', 'resources/unconditional', w(f), 'both removals run on every drop', 'a removal is conditional')
+    g, may, must = drop_runs(CC)
+    container_term = None
+    if g is None:
+        rep.violated('R1', 'container/drop-impl', '-', 'ContainerContext has no Drop impl: detached containers are never removed')
+    else:
+        rep.analysed(g)
+        cty, cterms, _ = removal_names(may[0], g) if len(may) == 1 else (None, [], [])
+        ok = cty == RM_CONTAINER and len(cterms) == 1 and cterms[0] is not None
+        container_term = cterms[0] if ok else None
+        rep.check(ok, 'R1', 'container/remove', w(g), 'drop removes self.container_name', 'container drop does not remove its own container')
+        mkc = {ekey(e) for e in must}
+        rep.check(len(may) == 1 and all(ekey(e) in mkc for e in may), 'R1', 'container/unconditional', w(g),
+                  'the container is removed on every drop (also while the thread is unwinding)',
+                  'the container removal is conditional (e.g. skipped while panicking): a detached container can be left behind')
+        ok, why = removal_shape(RM_CONTAINER, ['rm'], 'container_name')
+        rep.check(ok, 'R1', 'command/DockerRemoveContainerCommand', w(g), 'docker rm --force <name>', 'removal command shape: ' + why)
+    # ---- R2 --------------------------------------------------------------------------------------------
     rep.check(gi is not None, 'R2', 'resources/by-value-param', w(bi), 'build_internal owns the guard (by-value parameter)', 'build_internal takes the guard as %s' % (bi.args[1] if len(bi.args) > 1 else None))
     unwind_drops = [b for b in bi.blocks if gi is not None and b['cleanup'] and b['t']['t'] == 'drop' and b['t']['p'] == [gi + 1]]
     rep.check(bool(unwind_drops), 'R2', 'resources/unwind-drop', w(bi), 'the guard is dropped on the unwind path of build_internal', 'no unwind-path drop of the guard in build_internal')
-    bi_may = effects(bi, 'may')
     spawns = [e for e in bi_may if e.kind == 'RUN']
     # the test closure (a parameter of build_internal) is called with a TestContext whose docker_resources is the guard
     handed = []
@@ -176,14 +227,11 @@ def run(ctx, rep):
                 handed.append(dict(tcv[3]).get('docker_resources', ('unknown',)))
     ok = bool(handed) and all(is_guard(v) for v in handed)
     rep.check(ok and bool(spawns), 'R2', 'resources/moved-into-context', w(bi), 'the same guard is moved into the TestContext handed to the test closure', 'the guard is not moved into the TestContext')
-    # pack uses the guard's names
-    packs = [e for e in bi_may if e.kind == 'PACK_NEW']
-
-    def guard_field(v):
-        v = strip(v)
-        return v[2] if v[0] == 'field' and is_guard(v[1]) else None
-    ok = bool(packs) and all([guard_field(x) for x in e.args[2:5]] == GUARD_NAMES for e in packs)
-    rep.check(ok, 'R2', 'resources/names-used', w(bi), 'pack builds exactly the image / volumes named by the guard', 'pack is not given the guard\'s image/volume names')
+    # pack uses the guard's names: three different names of the guard (image, build cache, launch cache); R1 compares what
+    # the drop removes against exactly these
+    ok = created is not None and len({tkey(t) for t in created}) == 3
+    rep.check(ok, 'R2', 'resources/names-used', w(bi), 'pack builds exactly the image / volumes named by the guard', 'pack is not given the guard\'s image/volume names',
+              str([[term_label(t) for t in p] for p in pack_names]))
     sc = prog.find_one(r"^libcnb_test::test_context::TestContext::<'_>::start_container$")
     rep.analysed(sc)
     cc_made, cc_helpers = construction_sites(prog, sl, CC)
@@ -202,7 +250,9 @@ def run(ctx, rep):
             rep.analysed(fn)
         norm = lambda v: strip(sl.inline_deep(strip(v), keep=(RID,)))
         gv = frames[0][1].value(sl, keep=(RID,))
-        nm = norm(dict(gv[3]).get('container_name', ('unknown',))) if gv[0] == 'agg' else ('unknown',)
+        # the name the drop removes, evaluated on the guard literal
+        nv = eval_term(container_term, gv) if container_term is not None else None
+        nm = norm(nv) if nv is not None else ('unknown',)
         news = [e for e in sc_may if e.kind == 'DRUN_NEW']
         same = bool(news) and all(len(e.args) > 1 and norm(e.args[1]) == nm for e in news) and nm[0] == 'call' and nm[1] == RID
         rep.check(same, 'R2', 'container/same-name', w(sc), 'guard and `docker run --name` use the same generated name', 'the guard does not hold the name given to docker run')
@@ -244,8 +294,12 @@ def run(ctx, rep):
         v = ('unknown',)
         for e in fwd:
             v = sl.inline_deep(strip(e.args[gi]), keep=(RID,)) if ok and gi < len(e.args) else ('unknown',)
-            ok = ok and v[0] == 'agg' and v[1] == TDR and set(GUARD_NAMES) <= {n for n, _ in v[3]} and \
-                all(any(x[0] == 'call' and x[1] == RID for x in walk(fv)) for n, fv in v[3] if n in GUARD_NAMES)
+            # every name the guard stands for (what pack creates / the drop removes), evaluated on the guard literal, carries
+            # the random identifier
+            names = (created or [None]) + [t for ts in drop_names.values() for t in ts]
+            vals = [eval_term(t, v) if t is not None else None for t in names]
+            ok = ok and v[0] == 'agg' and v[1] == TDR and len(names) >= 3 and \
+                all(nv is not None and any(x[0] == 'call' and x[1] == RID for x in walk(nv)) for nv in vals)
         rep.check(ok, 'R4', 'names-generated', w(bf), 'all three names derive from random_docker_identifier()', 'resource names are not generated per run: ' + vstr(v)[:160])
     rb = prog.find_one(r"^libcnb_test::test_context::TestContext::<'_>::rebuild$")
     rep.analysed(rb)
@@ -305,7 +359,7 @@ def run(ctx, rep):
     rep.check(crate_panic == ['Unwind'], 'R6', 'strategy', '-', 'libcnb_test is compiled with panic=unwind', 'libcnb_test panic strategy: %s' % crate_panic)
 
     deepen(ctx, rep, dict(E=E, effects=effects, models=models, cmds=cmds, removal=removal, drop_runs=drop_runs, bi=bi, sc=sc, gi=gi,
-                          is_guard=is_guard, guard_field=guard_field, packs=packs, w=w))
+                          is_guard=is_guard, pack_term=pack_term, drop_names=drop_names, packs=packs, w=w))
 
 
 PKG_CRATE = 'libcnb_test::build::package_crate_buildpack'
@@ -424,11 +478,14 @@ def deepen(ctx, rep, env):
             ok = None
         if ok:
             for e in env['packs']:
-                names = {i: env['guard_field'](a) for i, a in enumerate(e.args)}
-                src = lambda fld: sorted(names.get(i) or '#%d' % i for i in fp.get(fld, ()))
-                ok = ok and src(img_f) == ['image_name'] and sorted(src(cache_f[0]) + src(cache_f[1])) == sorted(GUARD_NAMES[1:]) and \
-                    len(src(cache_f[0])) == 1
-                why = 'image <- %s, caches <- %s / %s' % (src(img_f), src(cache_f[0]), src(cache_f[1]))
+                # what the guard removes (terms over the guard) against what reaches `build <image>` / `--cache ..name=<volume>`
+                names = {i: env['pack_term'](a) for i, a in enumerate(e.args)}
+                src = lambda fld: sorted(term_label(names[i]) if names.get(i) is not None else '#%d' % i for i in fp.get(fld, ()))
+                rm_img = [term_label(t) for t in env['drop_names'].get(RM_IMAGE, [])]
+                rm_vol = sorted(term_label(t) for t in env['drop_names'].get(RM_VOLUME, []))
+                ok = ok and len(rm_img) == 1 and len(rm_vol) == 2 and '?' not in rm_img + rm_vol and src(img_f) == rm_img and \
+                    sorted(src(cache_f[0]) + src(cache_f[1])) == rm_vol and len(src(cache_f[0])) == 1
+                why = 'image <- %s, caches <- %s / %s; the guard removes %s, %s' % (src(img_f), src(cache_f[0]), src(cache_f[1]), rm_img, rm_vol)
         if ok is not None:
             rep.check(ok, 'R2', 'resources/pack-command', w(pn), 'pack builds the image and cache volumes under the guard\'s names (constructor and argv agree)',
                       'the names the guard removes are not the ones `pack build` is told to create: ' + why)
@@ -436,7 +493,7 @@ def deepen(ctx, rep, env):
     rm_fn = prog.fns.get(DRUN + '::remove')
     # `--rm` is emitted exactly under the struct's `remove` flag (whatever the spelling of the conversion: `if x.remove`,
     # `remove.then(|| ..)`), and the setter stores its argument in that flag
-    rm_conds = flag_conditions(prog, sl, cmds[DRUN], '--rm') if DRUN in cmds else None
+    rm_conds = word_conditions(models.get(DRUN), '--rm')
     flag_ok = bool(rm_conds) and all(c == [('remove', True)] for c in rm_conds) and rm_fn is not None and sets_param(sl, rm_fn, 'remove') == 1
     norm = lambda v: canon(strip(sl.inline_deep(strip(v), keep=(DRUN_NEW, RID))))
     roots = [f2 for f2 in prog.fns.values() if f2.crate == 'libcnb_test' and f2.vis == 'pub' and f2.kind in ('Fn', 'AssocFn') and not f2.derived and f2.path != sc.path]
@@ -542,6 +599,10 @@ def deepen(ctx, rep, env):
         glob = sorted(n for n in names if (n.startswith('fastrand::') and n.count('::') == 1 and n not in ('fastrand::seed', 'fastrand::get_seed'))
                       or n in ('fastrand::Rng::new', 'rand::random', 'rand::thread_rng', 'rand::rng', 'uuid::Uuid::new_v4'))
         count = _drawn(rv)
+        if count is None:
+            # the same identifier built piecewise: a prefix plus one drawn character per iteration of a counted loop
+            src = set(glob)
+            count = pushed_draws(prog, sl, rid, sl.local(rid, 0), lambda n: n in src) or None
         if seeded or not glob:
             rep.violated('R4', 'identifier-random', w(rid), 'identifiers are not drawn from an unseeded generator (seeded by %s, sources %s): runs share names and remove each other\'s resources' % (seeded, glob))
         elif count is None:
